@@ -74,6 +74,27 @@ def cmdStore : P String := do
   | .error e => pure s!"err {showErr e}"
   | .ok o' => pure (showObj o')
 
-def handlers : List (String × P String) := [("g_iw_merge", cmdMerge), ("g_iw_store", cmdStore)]
+/-- a recording classifier: the index lists of the native `partial_fit` calls it has received so far -/
+abbrev Hst := List (List Int)
+
+def showHst (h : Hst) : String := " ; ".intercalate (h.map showInts)
+
+/-- `g_iw_native <len(X)> <use_base_clf> <set_base_clf> <clf_ history?> <base_clf_ history?> <add_idx> <add_y> <add_sw?>`: the
+translated native branch of `partial_fit`; a history is `0` (attribute absent) or `1 <k> <list>…` -/
+def cmdNative : P String := do
+  let n ← nat
+  let ub ← bool
+  let sb ← bool
+  let clf ← attrOf (listOf (listOf int))
+  let bclf ← attrOf (listOf (listOf int))
+  let idx ← listOf int
+  let y ← listOf int
+  let sw ← optList
+  let o : Ska.PyIW.WObj Hst Int Int := { clf_ := clf, base_clf_ := bclf }
+  match partial_fit.native n (fun (c : Hst) (d : Data Int Int) => c ++ [d.idx]) ub sb o idx y sw with
+  | .error e => pure s!"err {showErr e}"
+  | .ok o' => pure s!"clf {showAttr showHst o'.clf_} | base {showAttr showHst o'.base_clf_}"
+
+def handlers : List (String × P String) := [("g_iw_merge", cmdMerge), ("g_iw_store", cmdStore), ("g_iw_native", cmdNative)]
 
 end Ska.Drv.WrapperGen
